@@ -10,10 +10,14 @@ mod gentool;
 mod sut;
 mod vfs;
 mod hashseed;
+mod memseam;
 mod runner;
 mod tape;
 
 use runner::{CheckSpec, ScenarioPlan, Tier};
+
+#[global_allocator]
+static GLOBAL: memseam::CountingAlloc = memseam::CountingAlloc;
 
 pub fn all_checks() -> Vec<CheckSpec> {
     vec![c01_spec(), c03_spec(), c13_spec(), c15_spec(), c16_spec(), c17_spec()]
